@@ -10,7 +10,7 @@ LEVEL = "model_checking"
 RULE = ("BFS over solve histories: alphabet of operations {solve with the shared default Params object, solve with Exact control + objective "
         "filter, re-solve on the most recent solver object, solve with GradJac scaling, solve with derivative check, solve of a problem with an "
         "unsymmetric Hessian (module-level warn-once flags), solve ending in the deliberate step-size error, solve aborted by an exception from a user callback, [thorough: derivative check, DEBUG-logged solve, "
-        "flow-integration solve, solve with DistanceRatio+DualNorm on a second problem]}; ALL histories up to depth 3 (quick) / 4 (thorough), each "
+        "flow-integration solve, solve with DistanceRatio+DualNorm on a second problem]}; ALL histories up to depth 3 over the quick alphabet (quick) / up to depth 3 over the full alphabet plus depth 4 over the quick alphabet (thorough), each "
         "history executed in a fresh process; differential oracle: the digest (every trial step, status, x, y, d, counters) of every solve in a "
         "history equals the digest of the same operation executed alone in a fresh process. states = histories (no merging: interpreter state "
         "cannot be hashed, so no abstraction is claimed); transitions = operations executed")
@@ -260,10 +260,13 @@ def cases(tier, seed):
             if op not in refs:
                 with ctx.Pool(1, maxtasksperchild=1) as pool:
                     refs[op] = pool.apply(_alone, (op,))
-    depth = 3 if tier == "quick" else 4
     out = []
-    for d in range(1, depth + 1):
+    # quick: all histories of depth <= 3 over the quick alphabet; thorough: depth <= 3 over the full alphabet plus depth 4 over the quick one
+    for d in range(1, 4):
         for hist in itertools.product(ops(tier), repeat=d):
+            out.append({"hist": list(hist), "refs": refs})
+    if tier != "quick":
+        for hist in itertools.product(OPS_QUICK, repeat=4):
             out.append({"hist": list(hist), "refs": refs})
     if tier == "quick":
         for d in (1, 2):
@@ -294,7 +297,7 @@ def run_case(case):
 def summarize(cases_, results, tier):
     n_ops = sum(r["stats"].get("ops", 0) for r in results)
     return {"states": len(cases_) + 1, "transitions": n_ops, "traces_validated_against_impl": len(cases_), "evaluations": n_ops,
-            "depth": 3 if tier == "quick" else 4, "alphabet": ops(tier)}
+            "depth": 3 if tier == "quick" else 4, "depth4_alphabet": None if tier == "quick" else OPS_QUICK, "alphabet": ops(tier)}
 
 
 def samples(cases_, results):
